@@ -192,7 +192,7 @@ Proof.
   - intros; apply P1_new_record.
   - intros s0 k r _. apply P1_same; [apply Mono_unremove | | |]; unfold unremove; destruct (rremove (getr s0 r)); try reflexivity.
     + cbn [cblog setr set_recs]. apply cblog_stop_timer.
-    + cbn [insts setr set_recs]. apply stop_timer_frame.
+    + cbn [insts setr set_recs]. destruct (stop_timer_frame s0 (Some n)) as (_ & _ & T & _). now rewrite T.
     + intros q. rewrite failed_setr; [now rewrite getr_stop_timer | rewrite getr_stop_timer; reflexivity | rewrite getr_stop_timer; reflexivity].
   - intros s0 r y (K & L & D & _ & S & X & _). apply P1_same; [apply Mono_setr; repeat split; auto | reflexivity | reflexivity|].
     intros q. now apply failed_setr.
@@ -201,9 +201,9 @@ Proof.
   - intros s0 r. apply P1_same; [apply Mono_setr; repeat split | reflexivity | reflexivity|]. intros q. now apply failed_setr.
   - intros s0 k. p1same. mext.
   - intros s0 k r _ _. apply P1_same; [eapply Mono_trans; [apply Mono_timers_app | apply Mono_setr; repeat split] | reflexivity | reflexivity|].
-    intros q. now apply failed_setr.
-  - intros s0 i x p H. p1same. apply (Mono_seti s0 i x _ H); repeat split; auto. rewrite insts_seti. apply length_set_nth.
-  - intros s0 i x o H. p1same. apply (Mono_seti s0 i x _ H); repeat split; auto. rewrite insts_seti. apply length_set_nth.
+    intros q. rewrite failed_setr; reflexivity.
+  - intros s0 i x p H. apply P1_same; [apply (Mono_seti s0 i x _ H); repeat split; auto | reflexivity | rewrite insts_seti; apply length_set_nth | intros; reflexivity].
+  - intros s0 i x o H. apply P1_same; [apply (Mono_seti s0 i x _ H); repeat split; auto | reflexivity | rewrite insts_seti; apply length_set_nth | intros; reflexivity].
   - intros s0 t x Hx _ _ _ _. apply P1_same.
     + eapply Mono_trans; [apply (Mono_timer_set s0 t x TRan Hx)|]. eapply Mono_trans; [apply Mono_stop_timer|]. apply Mono_setr. repeat split.
     + cbn [cblog setr set_recs]. now rewrite cblog_stop_timer.
@@ -216,4 +216,112 @@ Proof.
   - intros s0 c. apply P1_same; [apply Mono_cancel_root | | |]; unfold cancel_root; destruct (Nat.eqb c 0); try reflexivity.
     cbn [insts set_croots set_insts]. apply map_length.
   - intros. p1same. mext.
+Qed.
+
+Lemma P1_settle s : P1 s (settle s).
+Proof.
+  apply (V_settle P1 P1_refl P1_trans).
+  - intros s0 i x p H. apply P1_same; [apply (Mono_seti s0 i x _ H); repeat split; auto | reflexivity | rewrite insts_seti; apply length_set_nth | intros; reflexivity].
+  - intros s0 i x o H. apply P1_same; [apply (Mono_seti s0 i x _ H); repeat split; auto | reflexivity | rewrite insts_seti; apply length_set_nth | intros; reflexivity].
+  - intros s0 d. apply P1_same; [apply Mono_advance | reflexivity | reflexivity | intros; reflexivity].
+Qed.
+Theorem P1_next_nobook s e : (forall i, e <> EBook i) -> P1 s (settle (step repaired s e)).
+Proof. intros H. eapply P1_trans; [now apply P1_step_nobook | apply P1_settle]. Qed.
+
+(* the eager schedule leaves key map, records, exit log and the timers' identity alone *)
+Lemma settle_frame s :
+  kmap (settle s) = kmap s /\ recs (settle s) = recs s /\ cblog (settle s) = cblog s /\ ctors (settle s) = ctors s /\
+  length (insts (settle s)) = length (insts s) /\ length (timers (settle s)) = length (timers s) /\
+  (forall t, tdead (gett (settle s) t) = tdead (gett s t) /\ tkind (gett (settle s) t) = tkind (gett s t) /\ tkey (gett (settle s) t) = tkey (gett s t)).
+Proof.
+  assert (G : forall l s0, let s1 := fold_left (fun s i => wake repaired s i true) l s0 in
+              kmap s1 = kmap s0 /\ recs s1 = recs s0 /\ cblog s1 = cblog s0 /\ ctors s1 = ctors s0 /\ length (insts s1) = length (insts s0) /\ timers s1 = timers s0).
+  { induction l as [|i l IH]; intros s0; cbn [fold_left]; [repeat split; reflexivity|]. destruct (IH (wake repaired s0 i true)) as (A1 & A2 & A3 & A4 & A5 & A6).
+    cbn zeta in *. rewrite A1, A2, A3, A4, A5, A6. rewrite length_insts_wake. destruct (timers_wake s0 i true) as [T _]. rewrite T.
+    unfold wake. repeat match goal with |- context [match ?x with _ => _ end] => destruct x end; repeat split; reflexivity. }
+  unfold settle. destruct (G (seq 0 (length (insts s))) (advance s 0)) as (A1 & A2 & A3 & A4 & A5 & A6). cbn zeta in *.
+  rewrite A1, A2, A3, A4, A5. unfold gett. rewrite A6. unfold advance. cbn [kmap recs cblog ctors insts timers set_timers set_clock].
+  repeat split; try reflexivity; try apply map_length;
+    (destruct (Nat.lt_ge_cases t (length (timers s))) as [Hl|Hl];
+      [rewrite (nth_indep _ timer0 (fire (clock s + 0)%N timer0)) by (rewrite map_length; exact Hl); rewrite map_nth; unfold fire;
+        destruct (tst (nth t (timers s) timer0)); try reflexivity; destruct (N.leb _ _); reflexivity
+      | rewrite !nth_overflow by (rewrite ?map_length; exact Hl); reflexivity]).
+Qed.
+Lemma Fr0_settle s : Fr0 s (settle s).
+Proof. unfold settle. eapply Fr0_trans; [apply Fr0_advance|]. apply (Fr0_fold (fun s i => wake repaired s i true)). intros; apply Fr0_wake. Qed.
+
+(* ------------------------------------------------------------------ *)
+(* the bookkeeping section *)
+Lemma bookkeep_facts s i x o :
+  nth_error (insts s) i = Some x -> ipcv x = IBook o ->
+  let s' := bookkeep s i in
+  kmap s' = kmap s /\ length (insts s') = length (insts s) /\ length (recs s') = length (recs s) /\
+  ((rctx (getr s (irec x)) = Some i /\ cblog s' = cblog s ++ [(rkey (getr s (irec x)), rdata (getr s (irec x)), o)] /\
+    (irec x < length (recs s) -> failed (getr s' (irec x)) = negb (is_nil o)) /\ (forall q, q <> irec x -> failed (getr s' q) = failed (getr s q))) \/
+   (cblog s' = cblog s /\ forall q, failed (getr s' q) = failed (getr s q))).
+Proof.
+  intros Hx Hp. cbn zeta. split; [apply kmap_bookkeep|]. split; [apply Pre_bookkeep|].
+  unfold bookkeep. rewrite Hx, Hp. set (r := irec x). set (y := getr s r). set (s0 := seti s i (with_pc x IDone)).
+  destruct (rctx y) as [j|] eqn:Ec; [|split; [reflexivity | right; split; [reflexivity | intros; reflexivity]]].
+  destruct (Nat.eqb_spec j i) as [->|Hne]; [|split; [reflexivity | right; split; [reflexivity | intros; reflexivity]]].
+  assert (G : forall S a b, recs S = recs s -> cblog S = cblog s ->
+     let S' := set_cblog (setr S r (with_exit y o a b)) (cblog (setr S r (with_exit y o a b)) ++ [(rkey y, rdata y, o)]) in
+     length (recs S') = length (recs s) /\
+     (Some i = Some i /\ cblog S' = cblog s ++ [(rkey y, rdata y, o)] /\ (r < length (recs s) -> failed (getr S' r) = negb (is_nil o)) /\
+      (forall q, q <> r -> failed (getr S' q) = failed (getr s q)))).
+  { intros S a b ER EC. cbn zeta. cbn [recs cblog set_cblog setr set_recs]. rewrite length_set_nth, ER, EC. split; [reflexivity|]. split; [reflexivity|]. split; [reflexivity|]. split.
+    - intros Hl. unfold getr. cbn [recs set_cblog setr set_recs]. rewrite ER, nth_set_nth_same by exact Hl. unfold failed. cbn [rexited rsucc with_exit andb]. reflexivity.
+    - intros q Hq. unfold getr. cbn [recs set_cblog setr set_recs]. rewrite ER, nth_set_nth_other by exact Hq. reflexivity. }
+  assert (ES : forall ot, recs (stop_timer s0 ot) = recs s /\ cblog (stop_timer s0 ot) = cblog s).
+  { intros ot. destruct (stop_timer_frame s0 ot) as (_ & T & _). rewrite T, cblog_stop_timer. split; reflexivity. }
+  destruct (script s0) as [l|].
+  - destruct (ES (rretry y)) as [E1 E2]. destruct (is_nil o) eqn:En.
+    + destruct (G _ None 0 E1 E2) as [L R]. split; [exact L | left; exact R].
+    + destruct (in_map _ _).
+      * destruct (nth_error l (rbo y)).
+        -- match goal with |- context [setr ?S r (with_exit y o ?a ?b)] => destruct (G S a b E1 E2) as [L R] end. split; [exact L | left; exact R].
+        -- destruct (G _ None (S (rbo y)) E1 E2) as [L R]. split; [exact L | left; exact R].
+      * destruct (G _ None (rbo y) E1 E2) as [L R]. split; [exact L | left; exact R].
+  - destruct (G s0 (rretry y) (rbo y) eq_refl eq_refl) as [L R]. split; [exact L | left; exact R].
+Qed.
+
+(* ------------------------------------------------------------------ *)
+(* the parked timer callbacks of an observation: every fired timer, once *)
+Lemma In_insert_t ts t x l : In x (insert_t ts t l) <-> x = t \/ In x l.
+Proof. induction l as [|u r IH]; cbn [insert_t]; [cbn; intuition|]. destruct (tlt _ _); cbn [In]; [intuition|]. rewrite IH. intuition. Qed.
+Lemma NoDup_insert_t ts t l : NoDup l -> ~ In t l -> NoDup (insert_t ts t l).
+Proof.
+  induction l as [|u r IH]; intros Hn Hi; cbn [insert_t]; [constructor; [intros []|constructor]|]. destruct (tlt _ _); [constructor; assumption|].
+  inversion Hn; subst. constructor; [rewrite In_insert_t; intros [->|X]; [apply Hi; now left | contradiction]|]. apply IH; [assumption | intros X; apply Hi; now right].
+Qed.
+Lemma fired_sorted_gen ts : forall L acc, NoDup L -> NoDup acc -> (forall x, In x acc -> ~ In x L) ->
+  let res := fold_left (fun acc t => if is_fired (nth t ts timer0) then insert_t ts t acc else acc) L acc in
+  NoDup res /\ forall x, In x res <-> In x acc \/ (In x L /\ is_fired (nth x ts timer0) = true).
+Proof.
+  induction L as [|t L IH]; intros acc NL NA HD; cbn [fold_left]; [split; [exact NA | intros x; cbn [In]; intuition]|].
+  inversion NL; subst. destruct (is_fired (nth t ts timer0)) eqn:Ef.
+  - destruct (IH (insert_t ts t acc)) as [R1 R2]; [assumption | apply NoDup_insert_t; [exact NA | intros X; apply (HD t X); now left]|
+      intros x Hx; apply In_insert_t in Hx as [->|Hx]; [assumption | intros X; apply (HD x Hx); now right]|].
+    cbn zeta in *. split; [exact R1|]. intros x. rewrite R2, In_insert_t. cbn [In]. split.
+    + intros [[->|X]|[X Y]]; auto.
+    + intros [X|[[<-|X] Y]]; auto.
+  - destruct (IH acc) as [R1 R2]; [assumption | assumption | intros x Hx X; apply (HD x Hx); now right|].
+    cbn zeta in *. split; [exact R1|]. intros x. rewrite R2. cbn [In]. split; [intuition|]. intros [X|[[<-|X] Y]]; auto. congruence.
+Qed.
+Lemma fired_sorted_spec ts : NoDup (fired_sorted ts) /\ forall t, In t (fired_sorted ts) <-> t < length ts /\ is_fired (nth t ts timer0) = true.
+Proof.
+  destruct (fired_sorted_gen ts (seq 0 (length ts)) [] (seq_NoDup _ _) (NoDup_nil _) (fun x H => match H with end)) as [A B]. cbn zeta in *.
+  split; [exact A|]. intros t. unfold fired_sorted. rewrite B, in_seq. cbn [In]. intuition lia.
+Qed.
+Lemma cnt_two {A B} (P : B -> bool) (f : A -> B) (l : list A) a b :
+  NoDup l -> In a l -> In b l -> a <> b -> P (f a) = true -> P (f b) = true -> 2 <= cnt P (map f l).
+Proof.
+  induction l as [|h t IH]; intros Hn Ha Hb Hab Pa Pb; [destruct Ha|]. inversion Hn; subst. cbn [map]. rewrite cnt_cons.
+  assert (One : forall c, In c t -> P (f c) = true -> 1 <= cnt P (map f t)).
+  { intros c Hc Pc. clear -Hc Pc. induction t as [|u t IHt]; [destruct Hc|]. cbn [map]. rewrite cnt_cons. destruct Hc as [->|Hc]; [rewrite Pc; cbn; lia|].
+    specialize (IHt Hc). lia. }
+  destruct Ha as [->|Ha], Hb as [->|Hb]; [contradiction | | |].
+  - rewrite Pa. cbn [b2n]. specialize (One b Hb Pb). lia.
+  - rewrite Pb. cbn [b2n]. specialize (One a Ha Pa). lia.
+  - specialize (IH H2 Ha Hb Hab Pa Pb). lia.
 Qed.
